@@ -162,6 +162,12 @@ func TestC09(t *testing.T) {
 		default:
 			isSig = true
 			pk := pubKeyJSON(rapid.IntRange(0, 5).Draw(t, "pkKind"), fmt.Sprintf("k%d", rapid.IntRange(0, 3).Draw(t, "pkSeed")))
+			if rapid.IntRange(0, 2).Draw(t, "pkOfExisting") == 0 {
+				// the public key of an account that already exists (its address differs from the requested one unless the target is that account)
+				keys := []Acc{KeyAcc(1), KeyAcc(2), KeyAcc(4), KeyAcc(5), FreshAcc(v.fresh), FreshAcc(v.fresh - 1)}
+				k := keys[rapid.IntRange(0, len(keys)-1).Draw(t, "existingKey")]
+				pk = fmt.Sprintf(`{"@type":"/cosmos.crypto.secp256k1.PubKey","key":"%s"}`, base64.StdEncoding.EncodeToString(k.Priv.PubKey().Bytes()))
+			}
 			addr := target.String()
 			if rapid.IntRange(0, 9).Draw(t, "badAddr") == 0 {
 				addr = "c4e1invalid"
